@@ -714,6 +714,7 @@ LAYOUTS = {
                       blocked_gpus=[1]),
     'L3x2g1a'  : dict(nodes=2, cores=2, gpus=1, agent_nodes=1),
     'L1x4g3b0' : dict(nodes=1, cores=4, gpus=3, blocked_gpus=[0]),
+    'L4x2'     : dict(nodes=4, cores=2, gpus=0),
     'L1x4lm'   : dict(nodes=1, cores=4, gpus=0, lfs=3, mem=3),
     'L1x2'     : dict(nodes=1, cores=2, gpus=0),
     'L1x4'     : dict(nodes=1, cores=4, gpus=0),
@@ -924,6 +925,11 @@ def scenarios(ctx_pid, quick):
     for combo in itertools.product(['c1', 'r2', 'r3', 'r4'], repeat=3):
         add('cont', 'L3x2', list(combo), scattered=False)
 
+    # ... on four nodes: a partly free node, a full node, free nodes behind it
+    for combo in itertools.product(['c1', 'c2', 'r3', 'r4'], repeat=3):
+        if set(combo) & {'r3', 'r4'}:
+            add('cont', 'L4x2', list(combo), scattered=False)
+
     # the jsrun flavour of the scheduler (resource sets) -------------------------------
     from radical.pilot.agent.scheduler.continuous_jsrun import ContinuousJsrun
     js = ['c1', 'r2', 'c2', 'g1', 'r2g1', 'r2gh', 'r4gh', 'l1', 'm2']
@@ -988,6 +994,10 @@ def scenarios(ctx_pid, quick):
     for combo in (['env'], ['env', 'c1'], ['c2', 'env']):
         x = combo.index('env')
         add('cancel', 'L1x2', combo, cancel=[x], envs=['ve1'])
+    # one request naming waiting tasks of different priorities
+    add('cancel', 'L1x2', ['c2', 'c1', 'p1'],   cancel=[1, 2])
+    add('cancel', 'L1x2', ['c2', 'p1', 'c1'],   cancel=[1, 2])
+    add('cancel', 'L1x2', ['c2', 'p1c2', 'c1'], cancel=[1, 2])
     # two separate requests, one per waiting task, arriving back to back
     add('cancel', 'L1x2', ['c2', 'c2', 'c1'], cancel=[1, 2], cancel_split=True)
     add('cancel', 'L1x2', ['c2', 'c1', 'c1'], cancel=[1, 2], cancel_split=True)
